@@ -54,7 +54,11 @@ func denote(obj *AV, path []string) (*AV, bool) {
 func (c *Ctx) evalLeafBatch(cases []*leafCase) {
 	var lines []string
 	for _, lc := range cases {
-		lc.goObs = evalFresh(lc.text, lc.obj.GoMap())
+		poison := poisonObjects(c.R, lc.leaf)
+		if poison != nil {
+			c.count("on_reused_evaluator")
+		}
+		lc.goObs = evalOn(lc.text, lc.obj.GoMap(), poison)
 		lc.attr, lc.shapedOK = denote(lc.obj, lc.leaf.Path)
 		lines = append(lines, "EVAL\t"+lowerTable([]string{lc.text}, lc.obj)+"\t"+runeHex(lc.text)+"\t"+lc.obj.String())
 	}
@@ -91,6 +95,41 @@ func (c *Ctx) mkLeafCase(leaf *Node, attrGen func(idc *int) *AV, canonPct int) *
 func (lc *leafCase) viol(what, demand string) Violation {
 	return Violation{What: what, Rule: lc.text, RuleHex: hx(lc.text), Object: lc.obj.Pretty(), ObjProto: lc.obj.String(), Demand: demand,
 		Go: lc.goObs.Line() + " " + lc.goObs.ErrText, Model: lc.model}
+}
+
+// pairCheck: the same comparisons inside a compound (`A or B` / `A and B` on the merged object) must give the
+// combination of the oracle verdicts - the properties are stated for comparisons anywhere in a rule.
+type pairMem struct {
+	lc       *leafCase
+	expected bool
+}
+
+func (c *Ctx) pairCheck(prev *pairMem, lc *leafCase, expected bool, what string) {
+	defer func() { prev.lc, prev.expected = lc, expected }()
+	if prev.lc == nil || prev.lc.leaf.Path[0] == lc.leaf.Path[0] || !c.R.Chance(1, 2) {
+		return
+	}
+	a, b := prev.lc, lc
+	obj := avObj()
+	for i, k := range a.obj.Keys {
+		obj.Set(k, a.obj.Vals[i])
+	}
+	for i, k := range b.obj.Keys {
+		obj.Set(k, b.obj.Vals[i])
+	}
+	or := c.R.Chance(1, 2)
+	rule := &Node{T: NLogic, Or: or, L: a.leaf, R: b.leaf}
+	want := prev.expected && expected
+	if or {
+		want = prev.expected || expected
+	}
+	text := c.style(c.R.Chance(1, 3)).Render(rule)
+	got := evalOn(text, obj.GoMap(), poisonObjects(c.R, rule))
+	c.count("pair_in_compound")
+	if got.V != want || got.E != "-" {
+		c.violate(Violation{What: what + " (inside a compound rule)", Rule: text, RuleHex: hx(text), Object: obj.Pretty(), ObjProto: obj.String(),
+			Demand: fmt.Sprintf("verdict %v, no error (the two comparisons alone are %v and %v by the oracle)", want, prev.expected, expected), Go: got.Line() + " " + got.ErrText})
+	}
 }
 
 // ---------- C03 ----------
@@ -135,6 +174,7 @@ func checkC03(c *Ctx) {
 	c.Res.Rule = "single comparisons `path op literal` with an integer or decimal literal (boundary pools: 0, +-1, 2^31, 2^53+-1, int64 limits, halfway decimals, exponents, subnormals) in every spelling of the six relational operators, attribute drawn near the literal (equal, +-1, +-ulp, +-fraction, NaN, +-Inf, -0, int/int32/int64/float64) or of a non-numeric type; expected verdict computed independently with math/big; non-trivial = distinct (literal, operator, attribute) with a numeric attribute inside the quantifier domain"
 	n := c.budget(6000, 300000)
 	var batch []*leafCase
+	prev := &pairMem{}
 	judge := func() {
 		c.evalLeafBatch(batch)
 		for _, lc := range batch {
@@ -220,6 +260,7 @@ func checkC03(c *Ctx) {
 			if (mv == "1") != expected {
 				c.internal("Lean model disagrees with the math/big oracle: " + lc.text + " on " + lc.obj.Pretty() + " -> " + lc.model)
 			}
+			c.pairCheck(prev, lc, expected, "numeric comparison disagrees with the mathematical order")
 			c.sample(map[string]string{"rule": lc.text, "object": lc.obj.Pretty(), "verdict": strconv.FormatBool(expected)})
 		}
 		batch = batch[:0]
@@ -345,6 +386,7 @@ func checkC04(c *Ctx) {
 	c.Res.Rule = "single comparisons with a quoted literal without backslash (empty, blanks, mixed case, non-ASCII incl. characters whose lower-casing changes the byte length, control characters) under the nine string operators in every spelling; attribute = the literal / a case variant / a prefix, suffix or infix extension / invalid UTF-8 / a fmt.Stringer / a non-string; expected verdict computed with strings.ToLower and Go's own string relations; non-trivial = distinct (literal, operator, attribute) with a string-like attribute"
 	n := c.budget(6000, 300000)
 	var batch []*leafCase
+	prev := &pairMem{}
 	judge := func() {
 		c.evalLeafBatch(batch)
 		for _, lc := range batch {
@@ -379,6 +421,7 @@ func checkC04(c *Ctx) {
 			if lc.model != "NOLOWER" && (modelField(lc.model, "v") == "1") != expected {
 				c.internal("Lean model disagrees with the strings oracle: " + lc.text + " on " + lc.obj.Pretty() + " -> " + lc.model)
 			}
+			c.pairCheck(prev, lc, expected, "string comparison disagrees with the lower-cased texts")
 			c.sample(map[string]string{"rule": lc.text, "object": lc.obj.Pretty(), "verdict": strconv.FormatBool(expected)})
 		}
 		batch = batch[:0]
@@ -616,6 +659,7 @@ func checkC09(c *Ctx) {
 	c.Res.Rule = "single comparisons with a version literal X.Y.Z (multi-digit components, 2^64 boundary) under the six relational operators in every spelling; attribute = valid semantic versions near the literal (bumped components, pre-release lists mixing numeric and alphanumeric identifiers, build metadata), near-misses (`1.0`, `v1.0.0`, `1.0.0.`, leading zeros, empty identifiers, blanks), Stringers and other types; expected verdict from an independent semver.org precedence with unbounded integers; non-trivial = distinct (literal, operator, attribute) where the attribute is a valid semantic version"
 	n := c.budget(6000, 300000)
 	var batch []*leafCase
+	prev := &pairMem{}
 	judge := func() {
 		c.evalLeafBatch(batch)
 		for _, lc := range batch {
@@ -649,6 +693,7 @@ func checkC09(c *Ctx) {
 			if (modelField(lc.model, "v") == "1") != lc.goObs.V {
 				c.internal("Lean model disagrees with the engine on a version comparison: " + lc.text + " on " + lc.obj.Pretty() + " -> " + lc.model)
 			}
+			c.pairCheck(prev, lc, expected, "version comparison disagrees with semantic-version precedence")
 			c.sample(map[string]string{"rule": lc.text, "object": lc.obj.Pretty(), "verdict": strconv.FormatBool(expected)})
 		}
 		batch = batch[:0]
@@ -777,7 +822,11 @@ func checkC10(c *Ctx) {
 			rule = &Node{T: NLogic, Or: false, L: first, R: lf}
 		}
 		text := c.style(c.R.Chance(1, 4)).Render(rule)
-		got := evalFresh(text, obj.GoMap())
+		poison := poisonObjects(c.R, rule)
+		if poison != nil {
+			c.count("on_reused_evaluator")
+		}
+		got := evalOn(text, obj.GoMap(), poison)
 		c.Res.Evaluations++
 		c.nontrivial(lf.Lit.Kind, strconv.Itoa(lf.Op), strconv.Itoa(lf.T), class, strconv.Itoa(len(path)), strconv.Itoa(cut), strconv.FormatBool(inCompound))
 		c.count("class_" + class)
